@@ -5,7 +5,8 @@ import os
 from ..flow import standard_flow
 
 CLAUSE = {1: "seat map / player list / seat manager disagree, a seat or player is doubly booked, or a seat is outside the table",
-          2: "an operation that reported an error changed the bookkeeping", 3: "the operation panicked"}
+          2: "an operation that reported an error changed the bookkeeping", 3: "the operation panicked",
+          4: "a reserve for a new player naming an empty seat (or any seat) of a table that is not full was refused"}
 
 
 def signature(case, step):
